@@ -24,7 +24,10 @@ MANIFEST = {
             "back; session ids are fresh, an ended id is never valid again and commands on it change nothing; time-out is exact for each "
             "kind of session with ITS OWN parameter, in every reachable state no listed session is past its time-out and only an accepted "
             "command moves the clock of exactly the session it travels on (a local session's clock never moves); a password change ends "
-            "every session of the user; an enabled admin always remains, whichever of the five account editors is used, accounts are never "
+            "every session of the user; which ending event needs which service is proved row by row (the time-out needs none: it ends the "
+            "session and its connection in every power / service state and for ever after; password change needs the user-manager only; "
+            "the logouts need a running session manager); a password stays what it is until a change_password for that user; sessions "
+            "survive a power cycle of their node within their time-out (observation, stated as theorems); an enabled admin always remains, whichever of the five account editors is used, accounts are never "
             "removed / renamed / demoted / overwritten, and any configured user list starts with an enabled admin; the session limit is "
             "never exceeded and a login succeeds again once a session ended; a local command / local login changes nothing unless the "
             "credentials supplied WITH it are the current password of an enabled account (also while that user is logged in, after "
@@ -50,7 +53,7 @@ MANIFEST = {
 }
 MODULES = ["PrimaiteModel.Props.C16", "PrimaiteModel.Props.C16Conn", "PrimaiteModel.Props.C16Transport",
            "PrimaiteModel.Props.C16Timeout", "PrimaiteModel.Props.C16Admin", "PrimaiteModel.Props.C16Local",
-           "PrimaiteModel.Props.C16Chain"]
+           "PrimaiteModel.Props.C16Chain", "PrimaiteModel.Props.C16Ends"]
 EXE = "drv_c16"
 
 
@@ -133,6 +136,16 @@ def _sample(rng, items: list, k: int):
     return [(i, items[i]) for i in idx]
 
 
+def _thin(rng, cases: list, cap: int) -> list:
+    fam = {}
+    for i, (name, _) in enumerate(cases):
+        fam.setdefault(name.split(":")[0], []).append(i)
+    keep = set()
+    for f, idx in fam.items():
+        keep |= set(idx if len(idx) <= cap else rng.fork(f).shuffle(idx)[:cap])
+    return [c for i, c in enumerate(cases) if i in keep]
+
+
 def _run_impl_chunk(chunk: List[dict]):
     return [rig.run_impl(c) for c in chunk]
 
@@ -171,6 +184,7 @@ def run(ctx: Ctx):
                        "is compared after every operation; non-trivial = at least one remote session was opened and at least one "
                        "operation was refused; distinct by canonical JSON")
     _runtime_inventory(ctx)
+    fam_rng_pc = ctx.rng.fork("powercycle")
     cases: List[Tuple[str, dict]] = []
     for f in sorted((VERIF / "corpus" / "C16").glob("*.json")):
         cases.append(("corpus:" + f.name, json.loads(f.read_text())["case"]))
@@ -215,6 +229,16 @@ def run(ctx: Ctx):
         cases.append((f"exhmedium:1:{k}", c))
     for k, c in enumerate(rig.exhaustive_cases(cfgm, [], 2, rig.medium_alphabet())):
         cases.append((f"exhmedium:0:{k}", c))
+    # which session-ending event works in which service state
+    cfge = dict(base_cfg, lto=3, rto=2)
+    for k, c in enumerate(rig.exhaustive_cases(cfge, rig.ENDS_PREFIX, 3, rig.ends_alphabet())):
+        cases.append((f"exhends:{k}", c))
+    # sessions across a power cycle of the target (time-outs longer than the cycle)
+    for k in range(ctx.scale(60, 600)):
+        pr = fam_rng_pc.fork(str(k))
+        cfgp = {"n": 2 + pr.below(2), "su": pr.range(0, 2), "sd": pr.range(0, 2), "rd": 1, "max": 2, "lto": 9, "rto": pr.choice([5, 6, 9]),
+                "topo": pr.choice(["switch", "routed"])}
+        cases.append((f"powercycle:{k}", {"cfg": cfgp, "ops": rig.power_cycle_story(pr, cfgp)}))
     # a node commanding itself through its gateway
     cfgs = dict(base_cfg, topo="routed", su=0, sd=0)
     for k, c in enumerate(rig.exhaustive_cases(cfgs, [dict(rig.self_alphabet()[0])], 3, rig.self_alphabet())):
@@ -232,6 +256,12 @@ def run(ctx: Ctx):
     rng = ctx.rng.fork("sess")
     for k in range(ctx.scale(500, 6000)):
         cases.append((f"gen:{k}", rig.gen_case(rng, max_ops=ctx.scale(30, 60))))
+
+    # quick tier: of every bounded-exhaustive family with more than 800 sequences a seeded sample of 800 is run (another sample for
+    # every VERIF_SEED; the thorough tier runs all of them): keeps the tier under its time limit on the loaded machine
+    if not ctx.thorough:
+        cases = _thin(ctx.rng.fork("thin"), cases, 800)
+        ctx.notes.append("quick tier: families exhadmin / exhroute / exhmedium / exhends / exhlocal are seeded samples of 800 sequences each")
 
     # implementation side, then ONE driver run for all cases
     impl_all, lines_all, bounds, aux = [], [], [], []
@@ -308,3 +338,4 @@ def run(ctx: Ctx):
                f"{len(cases) - oracle_ok} of {len(cases)} traces fail the property's oracle")
     ctx.oblige("model never ran out of fuel", "correspondence", ctx.hist.get("model-out-of-fuel", 0) == 0)
     ctx.count("half-open-logins(session on the target, client told failure)", rig.HALF_OPEN["n"])
+    ctx.count("commands-executed-on-a-session-that-survived-a-power-cycle-of-its-node(observation)", rig.POWER_CYCLE["n"])
